@@ -490,7 +490,7 @@ func (g *G) op(c *Ctx, sv any, d int) string {
 }
 
 func (g *G) strOp(c *Ctx, s string, d int) string {
-	switch g.r.Intn(44) {
+	switch g.r.Intn(46) {
 	case 0, 1:
 		g.feat("re:test")
 		return "test(" + g.regexArgs(s, true) + ")"
@@ -527,9 +527,9 @@ func (g *G) strOp(c *Ctx, s string, d int) string {
 	case 20:
 		g.feat("fromjson")
 		return g.pick("fromjson", "fromjson?", "try fromjson catch \"bad\"", "[fromjson?]")
-	case 21:
+	case 21, 43, 44:
 		g.feat("tojson")
-		return g.pick("tojson", "tojson | fromjson", "@json", "[.] | tojson", "{a: .} | tojson")
+		return g.pick("tojson", "tojson | fromjson", "@json", "[.] | tojson", "{a: .} | tojson", "tojson | length", "tojson | explode", "tojson | utf8bytelength", "tojson == tostring", "[.] | tojson == tostring", "tojson | test(\"\\\\\\\\u\")", "tojson | [scan(\"\\\\\\\\.\")]", "@json | length", "@json == tojson", "@text | length", "\"<\\(tojson)>\" | length", "tojson | tojson | length", "tojson | ascii_downcase == tojson", "[tojson, @json, tostring] | map(length)", "{(.): 1} | tojson | length", "tojson | .[1:-1] == .", "tojson | fromjson == .", "@json \"\\(.)\" | explode", "tojson | @base64")
 	case 22:
 		return g.pick("length", "utf8bytelength")
 	case 23:
@@ -1044,7 +1044,9 @@ func (g *G) anyOp(c *Ctx, d int) string {
 		return g.pick("\"😀\" | length", "\"😀\" | utf8bytelength", "\"😀\" | explode", "[128512] | implode", "\"a😀b\" | .[1:2]", "\"a😀b\" | split(\"😀\")", "\"a😀b\" | [match(\".\"; \"g\") | .offset]", "\"é́\" | explode | length", "\"ǅ\" | ascii_downcase", "\"ÀÉ\" | ascii_downcase", "\"ÀÉ\" | test(\"àé\"; \"i\")", "\"日本語\" | [scan(\".\")]", "\"日本語\" | sub(\"本\"; \"x\")", "\"a\\u0000b\" | length", "\"a\\u0000b\" | tojson", "\"\\ud83d\\ude00\" | explode", "[55357, 56832] | implode?", "[1114112] | implode?", "[-1] | implode?", "\"𝄞\" | @uri", "\"é\" | @base64", "\"w6k=\" | @base64d", "\"/w==\" | @base64d | explode", "\"/w==\" | @base64d | tojson", "\"/w==\" | @base64d | length", "\"/w==\" | @base64d | utf8bytelength", "\"日本\" | @html", "\"😀\" | @sh", "\"😀\" | @json", "\"tab\\there\" | @tsv?", "[\"tab\\there\", \"q\\\"q\"] | @tsv", "[\"a,b\", \"q\\\"q\"] | @csv", "\"😀😀\" | indices(\"😀\")", "\"a😀😀\" | index(\"😀\")", "\"😀a\" | ltrimstr(\"😀\")", "\"İ\" | ascii_downcase | explode", "\"ß\" | ascii_upcase", "\"😀\" | test(\"^.$\")", "\"😀\" | [match(\"\"; \"g\") | .offset]", "\"éa\" | [match(\"a\").offset]", "\"😀\" * 3", "\"abc\" | .[1:] | explode")
 	case 17:
 		g.feat("shadow")
-		return g.pick(
+		// in parentheses: `def f: …; rest` would otherwise shadow the name for every LATER stage of the pipeline
+		// (a recursive template whose base case tests `length` never terminates under `def length: 99;`)
+		return "(" + g.pick(
 			"def ascii_downcase: \"shadowed\"; \"ABC\" | ascii_downcase",
 			"def split($x): [$x, .]; \"a.b\" | split(\".\")",
 			"def tojson: \"tj\"; [1] | tojson",
@@ -1091,7 +1093,7 @@ func (g *G) anyOp(c *Ctx, d int) string {
 			"def split($a; $b): \"s\"; \"a,b\" | [splits(\",\")]",
 			"def _match($a; $b; $c): \"hijack\"; \"abc\" | test(\"b\")",
 			"def _capture: \"hijack\"; \"abc\" | capture(\"(?<x>b)\")",
-		)
+		) + ")"
 	case 18:
 		g.feat("dates")
 		return g.pick("0 | todate", "1425599507 | todate", "\"2015-03-05T23:51:47Z\" | fromdate", "1425599507 | gmtime", "1425599507 | gmtime | mktime", "1425599507 | strftime(\"%Y %j %U %a %b %e %H:%M:%S\")", "\"10:20 05/03/2015\" | strptime(\"%H:%M %d/%m/%Y\")", "1425599507.678 | todate", "[2015, 2, 5, 23, 51, 47, 4, 63] | mktime", "[2015, 2, 5, 23, 51, 47, 4, 63] | todate")
@@ -1100,7 +1102,7 @@ func (g *G) anyOp(c *Ctx, d int) string {
 		return g.pick("[1, 2.5, -3] | map(floor, sqrt?)", "[4, 2] | pow(.[0]; .[1])", "10 | log10", "[1, 2] | atan2(.[0]; .[1]) | . * 1000 | floor", "1 | exp | . * 1000 | floor", "[3.7, -3.7] | map(trunc, round, ceil, fabs)", "5 % 3, -5 % 3, 5 % -3, 5.9 % 3.2", "1 / 3 * 3 == 1", "10 / 4", "7 / 7", "[limit(3; 1 | repeat(. * 3))]", "infinite | floor | tostring", "[1, 2, 3] | add / length", "0 / 1", "try (1 / 0) catch \"div0\"", "try (1 % 0) catch \"mod0\"", "[.1, .2] | add", "1e2 % 7", "8 | significand", "8 | logb", "[8 | frexp]", "3.5 | modf", "5 | gamma | floor", "5 | tgamma | round", "16 | cbrt | . * 100 | round")
 	case 20:
 		g.feat("misc")
-		return g.pick("[splits(\"a\")?]", "$in | type", "$in | tojson | length", "[$in | paths] | length", "$in | [..] | length", "[$in | .. | numbers] | length", "$in | [.. | strings] | map(length) | add", "[$in | .. | select(type == \"number\")] | sort | .[0]", "$in | tojson | fromjson == $in", "[$in | .. | numbers | tojson | fromjson] == [$in | .. | numbers]", "$in | [.. | strings | explode | implode] == [$in | .. | strings]", "$in | tojson | test(\"[0-9]{20}\")", "[$in | .. | strings | ascii_downcase | ascii_upcase] | length", "$in | [.. | strings | split(\"\") | length] | add", "[$in | .. | strings | [splits(\"\")] | length] | add", "[$in | .. | strings | split(\"a\") | join(\"a\")] == [$in | .. | strings]", "[$in | .. | strings | split(\".\") | join(\".\")] == [$in | .. | strings]", "[$in | .. | strings | [scan(\".\")] | join(\"\")] == [$in | .. | strings]", "[$in | .. | strings | test(\"^\")] | all", "$in | [.. | arrays | group_by(type) | map(length)]", "$in | [.. | arrays | unique_by(type) | length]", "$in | [.. | arrays | (min_by(tojson), max_by(tojson))]", "$in | [.. | objects | to_entries | sort_by(.value | tojson) | map(.key)]", "$in | [paths(type == \"number\")] as $ps | reduce $ps[] as $p (.; setpath($p; getpath($p) + 1)) | [.. | numbers]", "$in | [.. | numbers] | map(. * 2 / 2) == [$in | .. | numbers]", "$in | [.. | numbers | tostring | tonumber] == [$in | .. | numbers]")
+		return g.pick("[splits(\"a\")?]", "$in | type", "$in | tojson | length", "[$in | paths] | length", "$in | [..] | length", "[$in | .. | numbers] | length", "$in | [.. | strings] | map(length) | add", "[$in | .. | select(type == \"number\")] | sort | .[0]", "$in | tojson | fromjson == $in", "$in | tojson | length", "$in | tojson | explode | add", "$in | tojson == tostring", "[$in | .. | strings | tojson | length]", "[$in | .. | strings | (tojson | explode) == ([34] + explode + [34])]", "[$in | .. | strings | @json | utf8bytelength]", "$in | [.. | strings] | tojson | [scan(\"\\\\\\\\u[0-9a-f]{4}\")]", "[$in | .. | numbers | tojson | fromjson] == [$in | .. | numbers]", "$in | [.. | strings | explode | implode] == [$in | .. | strings]", "$in | tojson | test(\"[0-9]{20}\")", "[$in | .. | strings | ascii_downcase | ascii_upcase] | length", "$in | [.. | strings | split(\"\") | length] | add", "[$in | .. | strings | [splits(\"\")] | length] | add", "[$in | .. | strings | split(\"a\") | join(\"a\")] == [$in | .. | strings]", "[$in | .. | strings | split(\".\") | join(\".\")] == [$in | .. | strings]", "[$in | .. | strings | [scan(\".\")] | join(\"\")] == [$in | .. | strings]", "[$in | .. | strings | test(\"^\")] | all", "$in | [.. | arrays | group_by(type) | map(length)]", "$in | [.. | arrays | unique_by(type) | length]", "$in | [.. | arrays | (min_by(tojson), max_by(tojson))]", "$in | [.. | objects | to_entries | sort_by(.value | tojson) | map(.key)]", "$in | [paths(type == \"number\")] as $ps | reduce $ps[] as $p (.; setpath($p; getpath($p) + 1)) | [.. | numbers]", "$in | [.. | numbers] | map(. * 2 / 2) == [$in | .. | numbers]", "$in | [.. | numbers | tostring | tonumber] == [$in | .. | numbers]")
 	}
 	return g.leaf(c, "any")
 }
